@@ -32,7 +32,8 @@ type nameUse struct {
 	labels []KV
 }
 
-var nsPool = []string{"ns0", "ns1", "ns2", "default"}
+// "0-ns": a legal namespace name whose workloads sort before the ip-block peers ("0-ns/w1" < "0.0.0.0-255.255.255.255")
+var nsPool = []string{"ns0", "ns1", "ns2", "default", "0-ns"}
 var lblKeys = []string{"app", "tier", "role"}
 var lblVals = []string{"a", "b", "c"}
 var nsLblKeys = []string{"team", "env"}
@@ -520,6 +521,12 @@ func genWorld(r *Rng, cfg *genCfg) *World {
 			wl.Replicas = &n
 		}
 		w.Objs = append(w.Objs, Obj{Kind: "wl", Wl: wl})
+	}
+	if cfg.ingress && cfg.icName && r.P(12) {
+		// a real Pod with the name and namespace of the pod the ingress analysis adds (no Namespace manifest for it): the
+		// ingress-controller lines are about the analysis' own pod whatever the input calls its pods
+		w.Objs = append(w.Objs, Obj{Kind: "pod", Pod: &PodObj{NS: "ingress-controller-ns", Name: "ingress-controller", Labels: genLabels(r, lblKeys, lblVals, 2),
+			Ports: genCPorts(r), HostIP: "192.168.49.2"}})
 	}
 	if cfg.complementPct > 0 && r.P(cfg.complementPct) {
 		// two policies on the same pods whose union is everything, the second completing one port range of the first
